@@ -280,6 +280,7 @@ def programs(n, tier):
     alpha += [("goto", t) for t in targets] + [("ifz", t) for t in targets]
     sw = [(t, t) for t in targets[:-1]] + [(t, (t + 1) % (n + 1)) for t in range(n + 1)] + [(0, OUT)]
     alpha += [("pswitch", list(p)) for p in sw]
+    alpha += [("sswitch", [0, n])]              # sparse switch with a backward and a forward case
     if tier != "quick":
         alpha += [("sswitch", list(p)) for p in sw[:n + 2]] + [("fill", [1, 2, 3])]
 
